@@ -787,9 +787,9 @@ CANNED = [
      [1], 0, "dev:capture-kept-after-failed-guard"),
     ("known-list-iadd", "def f(x: int, y: int):", ["if y:", "    m += [1]"], 1, 0, "dev:known-list-mutated-in-place"),
     ("loop-else", "def f(x: list[tuple[int, str]], y: int):",
-     ["while x and isinstance(x[0], int):", "    x * 2", "else:", "    x -= 'a'"], [(1, "a")], 0, "dev:loop-else-assignment-seen-in-loop"),
+     ["y", "while x and isinstance(x[0], int):", "    x * 2", "else:", "    x -= 'a'"], [(1, "a")], 0, "dev:loop-else-assignment-seen-in-loop"),
     ("from-any", "def f(x: bool, y: Union[Literal[1], Literal[2]]):", ["x = Box(x).first", "v = min(x, y)"], True, 1, "dom:flows-from-any"),
-    ("abstract-truthy", "def f(x: Iterable[str], y: int):", ["v = (not x)"], [], 0, "dev:abstract-type-assumed-truthy"),
+    ("abstract-truthy", "def f(x: Iterable[str], y: int):", ["y", "v = (not x)"], [], 0, "dev:abstract-type-assumed-truthy"),
     ("extend-literal", "def f(x: list[int], y: int):", ["x += 'a'"], [1], 0, "dev:list-extend-literal-str-unchecked"),
     ("cross-eq", "def f(x: float, y: int):", ["if x == 1:", "    v = [x]"], 1.0, 0, "dom:cross-type-equality"),
     ("variadic", "def f(x: tuple[str, *tuple[int, ...]], y: tuple[int, ...]):", ["v = min(x, y)"], ("a", 1), (), "dom:variadic-tuple-leniency"),
@@ -821,11 +821,13 @@ def selftest(check: core.Check) -> None:
         obs.append(o)
         expect[o["tid"]] = (name, verdict, None)
         # corrupted copies: the read of y in the epilogue (match-leaves: the first read of x, before the block ends)
-        target = "x" if name in ("match-leaves", "rejected") else "y"
+        # the observation to corrupt must lie outside what the class's mechanism explains: by default the read of y in the
+        # epilogue; for the classes that put the whole state in doubt from some point on, a read before that point
+        target, which = {"match-leaves": ("x", "first"), "rejected": ("x", "first"), "abstract-truthy": ("y", "first")}.get(name, ("y", "last"))
         idxs = [i for i, e in enumerate(o["ev"]) if e["k"] == "e" and e["j"] and o["nodes"][e["n"] - 1]["t"] == target]
         if not idxs:
             raise core.MachineryError(f"self-test {name}: no judged read of {target}")
-        at = idxs[0] if target == "x" else idxs[-1]
+        at = idxs[0] if which == "first" else idxs[-1]
         for k, (bad, clause) in enumerate(((none_t, "viol:Sound"), (never_t, "viol:NeverIsNeverReached")), start=1):
             ev = [dict(e) for e in o["ev"]]
             ev[at]["i"] = bad
@@ -874,7 +876,7 @@ def run(check: core.Check) -> None:
     check.add_tlc("emit1", em)
     singles = core.emitted_json(em)
     check.cov["single_statement_functions_enumerated"] = len(singles)
-    n1 = 2200 if quick else 31000
+    n1 = 2000 if quick else 31000
     if len(singles) > n1:
         singles = rnd.sample(singles, n1)
     # the narrowing slice: every test in if / if-else / early return, every pattern (with and without guard) followed by
@@ -883,12 +885,12 @@ def run(check: core.Check) -> None:
     check.add_tlc("narrow", nr)
     narrow = core.emitted_json(nr)
     check.cov["narrowing_slice_functions_enumerated"] = len(narrow)
-    n2 = 2500 if quick else 30000
+    n2 = 2200 if quick else 30000
     if len(narrow) > n2:
         narrow = rnd.sample(narrow, n2)
-    singles_y = core.simulate_cases("MiniPyEmit", "MiniPy.sim1y.cfg", 1200 if quick else 12000, depth=12, seed=check.seed + 3,
+    singles_y = core.simulate_cases("MiniPyEmit", "MiniPy.sim1y.cfg", 1000 if quick else 12000, depth=12, seed=check.seed + 3,
                                     check=check, first_num=400 if quick else 4000)
-    sim = core.simulate_cases("MiniPyEmit", "MiniPy.sim.cfg", 2800 if quick else 40000, depth=45, seed=check.seed + 6,
+    sim = core.simulate_cases("MiniPyEmit", "MiniPy.sim.cfg", 2500 if quick else 40000, depth=45, seed=check.seed + 6,
                               check=check, first_num=1200 if quick else 12000)
     check.cov["exhaustive"] = False
     check.cov["rule"] = (
